@@ -142,6 +142,9 @@ class Enc(object):
                 self.fns[k] = z3.Function(t.args[0].replace(":", "_"), *([z3.IntSort()] * (len(xs) + 1)))
             xs = [x if z3.is_int(x) else z3.ToInt(x) for x in xs]
             r = self.fns[k](*xs)
+            if not hasattr(self, "fi_apps"):
+                self.fi_apps = []
+            self.fi_apps.append((t.args[0], xs, r))
         elif op == "sum":
             # a bound sum is left uninterpreted (a fresh real constant per distinct sum term): proves less, never more
             self.n_aux += 1
@@ -196,6 +199,15 @@ def _model_to_env(enc, model):
                 env[name] = str(val)
         except Exception:  # pragma: no cover
             env[name] = str(val)
+    # values of the integer table applications that occur in the query, at the model's argument values: "name[a, b]" -> value
+    for name, xs, app in getattr(enc, "fi_apps", []):
+        try:
+            args = [model.eval(x, model_completion=True) for x in xs]
+            val = model.eval(app, model_completion=True)
+            if all(z3.is_int_value(a) for a in args) and z3.is_int_value(val):
+                env["%s[%s]" % (name, ", ".join(str(a.as_long()) for a in args))] = val.as_long()
+        except Exception:  # pragma: no cover
+            pass
     return env
 
 
